@@ -146,6 +146,11 @@ class WindowedBinaryNormalizedEntropy(
             ),
         )
 
+    def reset(self: TWindowedNormalizedEntropy) -> TWindowedNormalizedEntropy:
+        super().reset()
+        self.next_inserted = 0
+        return self
+
     @torch.inference_mode()
     # pyre-ignore[14]: `update` overrides method defined in `Metric` inconsistently.
     def update(
